@@ -158,6 +158,28 @@ def menu(ctx: Ctx, rng: random.Random) -> list[dict]:
         seen.setdefault((e["cc"], e["code"]), []).append(e)
     mixed = [k for k, es in seen.items() if len(es) > 1 and not es[0]["primary"] and any(x["primary"] for x in es)
              and k[0] == "DE"]
+    # one bank key (the same digits) in two countries - listed in both, or listed in one only: a memo
+    # keyed by the digits alone would hand one country the other's bank (and, for German banks, the
+    # other's check digit method)
+    tbl = {gen.cc_of(r): r for r in ctx.table(env0) if gen.row_classes(r) is not None}
+    by_code = {}
+    for (cc, code) in seen:
+        if cc in tbl and code:
+            by_code.setdefault(code, set()).add(cc)
+    shared = sorted((code, sorted(ccs)) for code, ccs in by_code.items() if len(ccs) > 1)
+    picks = [(code, ccs[0], ccs[1]) for code, ccs in shared if "DE" in ccs][:2] + \
+            [(code, ccs[0], ccs[1]) for code, ccs in shared if "DE" not in ccs][:: max(1, len(shared) // 2)][:2] + \
+            [("37040044", "PL", "DE"), ("10220500", "BR", "DE")]
+    for code, c1, c2 in picks:
+        fam = []
+        for cc in (c1, c2):
+            placed = c12.place_key(tbl[cc], gen.bban_for(tbl[cc], rng, "low"), code) if cc in tbl else None
+            if placed:
+                t = cps(cc + gen.check_digits(cc, placed) + placed)
+                fam += [{"op": "iban.bank", "t": t}, {"op": "iban.new", "t": t, "vb": True}]
+        if len(fam) == 4:
+            FAMILIES.append(list(range(len(m), len(m) + 4)))
+            m += fam
     for cc, code in sorted(mixed)[:: max(1, len(mixed) // 3)][:3]:
         FAMILIES.append([len(m), len(m) + 1])
         b = code + "0000000000"
